@@ -53,3 +53,14 @@ INVARIANT C16_Applied
 INVARIANT C16_AttachmentsOwnedMarked
 INVARIANT C17_CacheFrozen
 INVARIANT C17_HookSeesDelivered
+INVARIANT C07_OneMove
+INVARIANT C07_HookOrder
+INVARIANT C07_Gate
+INVARIANT C07_OldStay
+INVARIANT C07_NonRevNow
+INVARIANT C07_Cond
+INVARIANT C08_NoNeedlessWait
+INVARIANT C08_Done
+INVARIANT C09_RevisionsFirst
+INVARIANT C09_OneClaim
+INVARIANT C09_NotAhead
